@@ -101,7 +101,62 @@ pub fn run(a: &Args) {
                 }
             }
         }
+        drop(target);
+        // ---- signals that the attach loop itself sees: a thread in the kernel's vfork wait keeps SIGUSR1 / SIGUSR2 /
+        // a realtime signal queued; the attach completes only when a watcher (this harness) ends the wait after the
+        // writer attached, so the thread leaves the kernel with those signals and the attach SIGSTOP all pending.
+        // With the StopProcess fail point on there is no group stop and the two lower-numbered signals are reported
+        // to the tracer before the SIGSTOP (the re-injection path); with it off the group stop is reported first and
+        // the signals stay queued until the detach.  Either way each must reach its handler exactly once.
+        if shape % 2 == 0 || a.tier == "thorough" {
+            let scen = Scenario { threads: vec![
+                ThreadSpec { kind: Kind::Vforker, sp_off: 0x800, pages: 4, name: Some(b"vf".to_vec()), at: None },
+                ThreadSpec { kind: Kind::Spin, sp_off: 0x100, pages: 4, name: None, at: None }], lines: vec![] };
+            let target = match Target::spawn(&scen, &work) { Ok(t) => t, Err(e) => { out.notes.push(format!("spawn failed: {e}")); continue; } };
+            let tid = target.tids[0];
+            for mode in [5u8, 6, 5] {
+                // the thread is in its vfork wait and the child's pid is known
+                let mut child = 0u64;
+                for _ in 0..2000 { child = target.slot(192); let st = target.thread_states(); if child != 0 && st.iter().any(|(t, s, _)| *t == tid && *s == 'D') { break; } std::thread::sleep(std::time::Duration::from_millis(1)); }
+                if child == 0 { let mut l = Line::new("const"); l.u(1); out.case(l.s(), "!the target's waiting thread did not reach its vfork wait", true); break; }
+                let (b_all, b_low) = (target.slot(64), target.slot(256));
+                for s in [libc::SIGUSR1, libc::SIGUSR2, libc::SIGRTMIN() + 1] { tgkill(target.pid, tid, s); }
+                let (pid, released) = (target.pid, std::sync::Arc::new(std::sync::atomic::AtomicBool::new(false)));
+                let rel2 = released.clone();
+                let watcher = std::thread::spawn(move || {
+                    for _ in 0..3000 {
+                        let st = std::fs::read_to_string(format!("/proc/{pid}/task/{tid}/status")).unwrap_or_default();
+                        let tracer = st.lines().find_map(|l| l.strip_prefix("TracerPid:")).and_then(|v| v.trim().parse::<i32>().ok()).unwrap_or(0);
+                        if tracer != 0 { rel2.store(true, std::sync::atomic::Ordering::SeqCst); break; }
+                        std::thread::sleep(std::time::Duration::from_millis(1));
+                    }
+                    unsafe { libc::kill(child as i32, libc::SIGKILL); }
+                });
+                let mut w = MinidumpWriter::new(target.pid, target.pid);
+                let mut dest = RecDest::new(vec![], 0, false);
+                let mut client = FailSpotName::testing_client();
+                if mode == 5 { client.set_enabled(FailSpotName::StopProcess, true); }
+                let (res, world, _) = with_hooks(target.pid, target.pid, true, None, || quiet_catch(std::panic::AssertUnwindSafe(|| w.dump(&mut dest).map(|_| ()).map_err(|e| format!("{e:?}")))));
+                client.set_enabled(FailSpotName::StopProcess, false); drop(client);
+                let _ = watcher.join();
+                let outcome = match &res { Ok(Ok(())) => 2u64, _ => 1 };
+                let (traced, stopped, detail) = observe(&target);
+                if traced != 0 || stopped != 0 { out.notes.push(format!("not released after mode {mode}: {detail}")); }
+                let mut got = (0, 0); for _ in 0..300 { got = (target.slot(64) - b_all, target.slot(256) - b_low); if got.0 >= 3 { break; } std::thread::sleep(std::time::Duration::from_millis(1)); }
+                std::thread::sleep(std::time::Duration::from_millis(2)); got = (target.slot(64) - b_all, target.slot(256) - b_low);
+                // the model run: the waiting thread sees two signals before its SIGSTOP when nothing stopped the process first
+                let wt = world.map(|w| w.threads).unwrap_or_default();
+                let mut line = Line::new("c03_final"); line.z(wt.len());
+                for t in &wt { line.u(0).u(if t.tid == tid && mode == 5 { 2 } else { 0 }); }
+                line.u(outcome).u(3);
+                let mut r = Line::bare(); r.z(traced).b(stopped > 0).u(if mode == 5 { got.1 } else { 0 });
+                out.case(line.s(), r.s(), true);
+                let mut l = Line::new("const"); l.u(3).u(2).b(true); let mut r = Line::bare(); r.u(got.0).u(got.1).b(released.load(std::sync::atomic::Ordering::SeqCst));
+                out.case(l.s(), r.s(), true);
+                out.count(["run.queued_signals_seen_by_attach", "run.queued_signals_with_group_stop"][(mode - 5) as usize]);
+            }
+        }
     }
     out.assumptions.push("kernel semantics of PTRACE_ATTACH/DETACH, group-stop and signal queueing are the assumed kernel model; observed through /proc/<pid>/task/<tid>/status (State, TracerPid), counters in a page shared with the target".into());
-    out.finish(&a.out, "live targets (blocked, spinning, null-SP threads; every 4th shape with an exited main thread so that the stop poll times out after SIGSTOP was sent) x runs: clean dump, destination failing at call k (every k on the first shape and in the thorough tier), unreadable application memory (hard error after suspension), realtime signals sent before the dump and at each hook point, StopProcess fail point; after each run: no thread traced or stopped, spin counters advance, per-thread signal counters equal the numbers sent");
+    out.finish(&a.out, "live targets (blocked, spinning, null-SP threads; every 4th shape with an exited main thread so that the stop poll times out after SIGSTOP was sent) x runs: clean dump, destination failing at call k (every k on the first shape and in the thorough tier), unreadable application memory (hard error after suspension), realtime signals sent before the dump and at each hook point, StopProcess fail point; after each run: no thread traced or stopped, spin counters advance, per-thread signal counters equal the numbers sent; second target per even shape: a thread in the vfork wait with SIGUSR1, SIGUSR2 and a realtime signal queued, released once the writer attached (with and without the StopProcess fail point): each signal reaches its handler exactly once");
 }
